@@ -104,6 +104,95 @@ pub fn check_mutant(case: &mutate::MutCase, st: &mut Stats) -> Check {
     check_bytes(&bytes, &u, case.key, st)
 }
 
+/// History stage: a random sequence of queries with heavy repetition and alternation, issued against ONE long-lived
+/// mapper and ONE long-lived cache; every answer must equal the answer a fresh instance gives to that query alone
+/// (state carried over between calls on the same object — hints, memo tables — must be invisible).
+#[derive(Clone, Debug, serde::Serialize, serde::Deserialize)]
+pub struct HistoryCase {
+    pub map: MapCase,
+    /// (class idx, method idx, line/params idx, kind)
+    pub ops: Vec<(u16, u16, u16, u8)>,
+}
+
+pub fn history_case() -> proptest::strategy::BoxedStrategy<HistoryCase> {
+    use proptest::prelude::*;
+    let c = GenCfg { max_blocks: 4, max_items: 8, long: 0, ..cfg() };
+    (map_case(&c), proptest::collection::vec((any::<u16>(), any::<u16>(), any::<u16>(), 0u8..6), 20..160))
+        .prop_map(|(map, ops)| HistoryCase { map, ops })
+        .boxed()
+}
+
+fn hist_answer(r: &dyn Retracer, q: &(String, String, u64, String, u8, String)) -> String {
+    let (c, m, l, p, kind, extra) = q;
+    match kind {
+        0 => format!("{:?}", r.class(c)),
+        1 => format!("{:?}", r.method(c, m)),
+        2 => format!("{:?}", r.frame_line(c, m, *l, Some("F.java"))),
+        3 => format!("{:?}", r.frame_params(c, m, p)),
+        4 => format!("{:?}", r.sig(extra)),
+        _ => format!("{:?}", r.text(extra)),
+    }
+}
+
+pub fn check_history(h: &HistoryCase, st: &mut Stats) -> Check {
+    let bytes = h.map.bytes();
+    let u = Universe::from_ast(&h.map.file, false);
+    if u.known_classes.is_empty() || u.known_methods.is_empty() {
+        return Ok(());
+    }
+    let extra = derive_extra(&u, h.map.key, 4, 0, 6);
+    // small pools => the same few classes / methods alternate all the time
+    let classes: Vec<&String> = u.known_classes.iter().take(4).chain(u.other_classes.iter().take(1)).collect();
+    let methods: Vec<&String> = u.known_methods.iter().take(4).collect();
+    let lines: Vec<u64> = u.lines.iter().copied().filter(|l| *l < 70 || *l > (1 << 31)).collect();
+    let pick = |f: u16, n: usize| (f as usize * n) >> 16;
+    let long_m = mapper(&bytes, true)?;
+    let buf = write_cache(&bytes)?;
+    let long_c = parse_cache(&buf)?;
+    let mut fresh: std::collections::HashMap<(String, String, u64, String, u8, String), (String, String)> = Default::default();
+    for (i, (a, b, c, kind)) in h.ops.iter().enumerate() {
+        st.evaluations += 1;
+        let q = (
+            classes[pick(*a, classes.len())].clone(),
+            methods[pick(*b, methods.len())].clone(),
+            lines[pick(*c, lines.len())],
+            u.params[pick(*c, u.params.len())].clone(),
+            *kind,
+            match kind {
+                4 => extra.sigs[pick(*c, extra.sigs.len())].clone(),
+                5 => extra.texts[pick(*c, extra.texts.len())].clone(),
+                _ => String::new(),
+            },
+        );
+        let want = match fresh.get(&q) {
+            Some(w) => w.clone(),
+            None => {
+                let fm = mapper(&bytes, true)?;
+                let fc = parse_cache(&buf)?;
+                let w = no_panic("query", || Ok((hist_answer(&fm, &q), hist_answer(&fc, &q))))?;
+                fresh.insert(q.clone(), w.clone());
+                w
+            }
+        };
+        let got = no_panic("query", || Ok((hist_answer(&long_m, &q), hist_answer(&long_c, &q))))?;
+        if i > 0 && got.0 != "None" && got.0 != "[]" {
+            st.nontrivial(crate::transcript::qhash(crate::engine::fnv64(&bytes), b'h', &[&(i as u64).to_le_bytes(), got.0.as_bytes()]));
+        }
+        if got != want {
+            return Err(Fail::new(
+                "history-dependent-answer",
+                format!("query #{i} {q:?} on long-lived instances answered (mapper, cache) = {got:?}, fresh instances answer {want:?}"),
+            )
+            .with(json!({"op_index": i})));
+        }
+        if want.0 != want.1 {
+            return Err(Fail::new("diff-history", format!("query {q:?}: mapper={} cache={}", want.0, want.1)));
+        }
+    }
+    st.class("history of 20..160 queries on one long-lived mapper and cache");
+    Ok(())
+}
+
 #[derive(Clone, Debug, serde::Serialize, serde::Deserialize)]
 pub struct CorpusCase {
     pub path: String,
@@ -128,17 +217,18 @@ pub fn check_corpus(case: &CorpusCase, st: &mut Stats) -> Check {
 
 pub fn run(ctx: &Ctx) -> Report {
     let mut rep = Report::new(ID, "exploration", ctx);
-    rep.rule = "Cases: grammar-generated mapping ASTs (representable domain, incl. plain '# sourceFile' headers, inline groups, overloads, duplicate class blocks) rendered with random line endings; token-mutated generated files admitted by the representable-domain predicate; corpus files of /repo/tests/res. Each case is checked on its complete query universe (class, method, frame-by-line over 0..66 + all range boundaries + extremes x file present/absent, frame-by-params, throwable, text trace, typed trace, signature): mapper(with param index) vs cache, and mapper without vs with param index. evaluations = single query comparisons. Non-trivial = distinct (case, query) pairs with a non-empty answer on at least one side (set of 64-bit hashes, capped).".into();
+    rep.rule = "Cases: grammar-generated mapping ASTs (representable domain, incl. plain '# sourceFile' headers, inline groups, overloads, duplicate class blocks) rendered with random line endings; token-mutated generated files admitted by the representable-domain predicate; corpus files of /repo/tests/res; plus a 'history' stage (random sequences of 20..160 repeated / alternating queries on one long-lived mapper and cache, each answer compared with fresh instances). Each case is checked on its complete query universe (class, method, frame-by-line over 0..66 + all range boundaries + extremes x file present/absent, frame-by-params, throwable, text trace, typed trace, signature): mapper(with param index) vs cache, and mapper without vs with param index. evaluations = single query comparisons. Non-trivial = distinct (case, query) pairs with a non-empty answer on at least one side (set of 64-bit hashes, capped).".into();
     rep.assumptions = vec![
         "cache buffers are 8-byte aligned (watto aligns by address; every real caller passes an mmap or allocator-aligned buffer)".into(),
         "domain: names (incl. fileName) non-empty, line numbers < 2^32-1".into(),
     ];
-    let n = ctx.cases(5000, 60_000);
+    let n = ctx.cases(5000, 180_000);
     rep.run_stage("ast", || map_case(&cfg()), n, check_case);
-    let nt = ctx.cases(60, 800);
+    let nt = ctx.cases(60, 2_400);
     rep.run_stage("tall", || tall_case(&cfg()), nt, check_case);
-    let nm = ctx.cases(3000, 40_000);
+    let nm = ctx.cases(3000, 120_000);
     rep.run_stage("mutant", || mutate::mut_case(&cfg()), nm, check_mutant);
+    rep.run_stage("history", history_case, ctx.cases(3000, 120_000), check_history);
     let corpus = corpus_cases(ctx);
     rep.run_enum("corpus", &corpus, check_corpus);
     rep
@@ -177,6 +267,7 @@ pub fn replay(stage: &str, case: &Value) -> Check {
     let mut st = Stats::new();
     match stage {
         "ast" | "tall" => check_case(&serde_json::from_value(case.clone()).map_err(|e| Fail::new("harness-replay", e.to_string()))?, &mut st),
+        "history" => check_history(&serde_json::from_value(case.clone()).map_err(|e| Fail::new("harness-replay", e.to_string()))?, &mut st),
         "mutant" => check_mutant(&serde_json::from_value(case.clone()).map_err(|e| Fail::new("harness-replay", e.to_string()))?, &mut st),
         "corpus" => check_corpus(&serde_json::from_value(case.clone()).map_err(|e| Fail::new("harness-replay", e.to_string()))?, &mut st),
         _ => Err(Fail::new("harness-replay", format!("unknown stage {stage}"))),
